@@ -20,6 +20,7 @@ EXTENDS ConsentOps, Sequences, TLC
 CONSTANTS
   W,             \* week-end setting (0..6) of the programs run by Collect
   Collectors,    \* programs that use the counter API
+  LongProgs,     \* the long-running program (a set with at most one element; {} = none)
   ModeFiles,     \* mode-file contents the initial state / a manual edit may produce
   InitFiles,     \* set of sets of count files [p, b, e] that may pre-exist
   InitReports,   \* set of records [local, ready, uploaded] (sets of weeks) that may pre-exist
@@ -29,7 +30,7 @@ CONSTANTS
   SetPads,       \* paddings around the word (subset of Pads)
   SetDays,       \* dates given to SetMode
   Xs, Rates,     \* X of a run and SampleRate of the downloaded config, in 1/1024
-  MaxRun, MaxSet, MaxEdit, MaxCollect, MaxAdv
+  MaxRun, MaxSet, MaxEdit, MaxCollect, MaxAdv, MaxProc
 
 VARIABLES modeFile,
           intent,      \* what the last accepted SetMode had to record (NoIntent after a manual edit)
@@ -37,10 +38,12 @@ VARIABLES modeFile,
           files,       \* function: count file [p, b, e] -> total counted in it
           local, ready, uploaded,   \* sets of weeks (a week is named by its end day)
           requests,    \* set of [wk, run]: reports posted to the server, by run number
+          proc,        \* the long-running counting process (ConsentOps.tla, NoProc)
+          nProc,
           nRun, nSet, nEdit, nCollect, nAdv,
           init,        \* the initial observable state (never changes; lets a dumped state be replayed)
           last         \* the action that led here and its arguments
-vars == <<modeFile, intent, day, tod, files, local, ready, uploaded, requests, nRun, nSet, nEdit, nCollect, nAdv, init, last>>
+vars == <<modeFile, intent, day, tod, files, local, ready, uploaded, requests, proc, nProc, nRun, nSet, nEdit, nCollect, nAdv, init, last>>
 
 Init == /\ modeFile \in ModeFiles
         /\ intent = NoIntent
@@ -48,22 +51,23 @@ Init == /\ modeFile \in ModeFiles
         /\ \E fs \in InitFiles : files = [f \in fs |-> 1]
         /\ \E r \in InitReports : local = r.local /\ ready = r.ready /\ uploaded = r.uploaded
         /\ requests = {}
+        /\ proc = NoProc /\ nProc = 0
         /\ nRun = 0 /\ nSet = 0 /\ nEdit = 0 /\ nCollect = 0 /\ nAdv = 0
         /\ init = [modeFile |-> modeFile, day |-> day, tod |-> tod, files |-> DOMAIN files,
                    local |-> local, ready |-> ready, uploaded |-> uploaded]
         /\ last = Act("init", "", 0, 0, TRUE)
 
-Cur == St(modeFile, intent, day, tod, files, local, ready, uploaded, requests)
-Nxt == St(modeFile', intent', day', tod', files', local', ready', uploaded', requests')
+Cur == St(modeFile, intent, day, tod, files, local, ready, uploaded, requests, proc)
+Nxt == St(modeFile', intent', day', tod', files', local', ready', uploaded', requests', proc')
 Becomes(t) == /\ modeFile' = t.modeFile /\ intent' = t.intent /\ day' = t.day /\ tod' = t.tod /\ files' = t.files
-              /\ local' = t.local /\ ready' = t.ready /\ uploaded' = t.uploaded /\ requests' = t.requests
+              /\ local' = t.local /\ ready' = t.ready /\ uploaded' = t.uploaded /\ requests' = t.requests /\ proc' = t.proc
 
 Run(x, rate) ==
     /\ nRun < MaxRun
     /\ Becomes(RunStep(Cur, x, rate, nRun + 1))
     /\ nRun' = nRun + 1
     /\ last' = Act("run", "", x, rate, TRUE)
-    /\ UNCHANGED <<nSet, nEdit, nCollect, nAdv, init>>
+    /\ UNCHANGED <<nSet, nEdit, nCollect, nAdv, nProc, init>>
 
 SetMode(m, p, d, acc) ==
     /\ nSet < MaxSet
@@ -72,7 +76,7 @@ SetMode(m, p, d, acc) ==
     /\ Becomes(SetStep(Cur, m, p, d, acc))
     /\ last' = ActP("set", m, p, d, 0, SetAccepted(m, p, acc))
     /\ nSet' = nSet + 1
-    /\ UNCHANGED <<nRun, nEdit, nCollect, nAdv, init>>
+    /\ UNCHANGED <<nRun, nEdit, nCollect, nAdv, nProc, init>>
 
 Edit(mf) ==
     /\ nEdit < MaxEdit /\ mf # modeFile
@@ -80,26 +84,44 @@ Edit(mf) ==
     /\ intent' = NoIntent
     /\ nEdit' = nEdit + 1
     /\ last' = Act("edit", "", 0, 0, TRUE)
-    /\ UNCHANGED <<day, tod, files, local, ready, uploaded, requests, nRun, nSet, nCollect, nAdv, init>>
+    /\ UNCHANGED <<day, tod, files, local, ready, uploaded, requests, proc, nProc, nRun, nSet, nCollect, nAdv, init>>
 
 Collect(p) ==
     /\ nCollect < MaxCollect
     /\ Becomes(CollectStep(Cur, p, W))
     /\ nCollect' = nCollect + 1
     /\ last' = Act("collect", p, 0, 0, TRUE)
-    /\ UNCHANGED <<nRun, nSet, nEdit, nAdv, init>>
+    /\ UNCHANGED <<nRun, nSet, nEdit, nAdv, nProc, init>>
+
+(* the long-running process: open/rotate (+ one increment), and an increment    *)
+(* between rotations.  An increment while the process still holds a file it     *)
+(* opened before the mode became off is not generated (see ConsentOps.tla).     *)
+PRotate(p) ==
+    /\ nProc < MaxProc
+    /\ Becomes(ProcRotateStep(Cur, p, W))
+    /\ nProc' = nProc + 1
+    /\ last' = Act("protate", p, 0, 0, TRUE)
+    /\ UNCHANGED <<nRun, nSet, nEdit, nCollect, nAdv, init>>
+PInc(p) ==
+    /\ nProc < MaxProc
+    /\ proc.st = "disabled" \/ (proc.st = "open" /\ EffMode(Gov(Cur)) # "off")
+    /\ Becomes(ProcIncStep(Cur))
+    /\ nProc' = nProc + 1
+    /\ last' = Act("pinc", p, 0, 0, TRUE)
+    /\ UNCHANGED <<nRun, nSet, nEdit, nCollect, nAdv, init>>
 
 Advance(pt) ==
     /\ nAdv < MaxAdv /\ Later(pt, <<day, tod>>)
     /\ day' = pt[1] /\ tod' = pt[2]
     /\ nAdv' = nAdv + 1
     /\ last' = Act("advance", "", 0, 0, TRUE)
-    /\ UNCHANGED <<modeFile, intent, files, local, ready, uploaded, requests, nRun, nSet, nEdit, nCollect, init>>
+    /\ UNCHANGED <<modeFile, intent, files, local, ready, uploaded, requests, proc, nProc, nRun, nSet, nEdit, nCollect, init>>
 
 Next == \/ \E x \in Xs, rate \in Rates : Run(x, rate)
         \/ \E m \in SetModes, p \in SetPads, d \in SetDays, acc \in BOOLEAN : SetMode(m, p, d, acc)
         \/ \E mf \in ModeFiles : Edit(mf)
         \/ \E p \in Collectors : Collect(p)
+        \/ \E p \in LongProgs : PRotate(p) \/ PInc(p)
         \/ \E pt \in ClockPoints : Advance(pt)
 Spec == Init /\ [][Next]_vars
 
@@ -110,12 +132,16 @@ SentOnlyIf        == [][C_SentOnlyIf(last', Cur, Nxt)]_vars
 OffChangesNothing == [][C_OffChangesNothing(last', Cur, Nxt)]_vars
 OtherBehavesLocal == [][C_OtherBehavesLocal(last', Cur, Nxt)]_vars
 SetGet            == [][C_SetGet(last', Cur, Nxt)]_vars
+DisabledStaysSilent == [][C_DisabledStaysSilent(last', Cur, Nxt)]_vars
+(* no counter file comes into being while the governing mode is off *)
+NoFileBornUnderOff == [][ExactlyOff(Gov(Cur)) /\ last'.op # "set" /\ last'.op # "edit" => DOMAIN files' \subseteq DOMAIN files]_vars
 
 (* ---- state invariants (sanity of the model) --------------------------------- *)
 TypeOK == /\ IsModeFile(modeFile)
           /\ (intent = NoIntent \/ intent = modeFile)     \* in the specification the file is what was asked for
           /\ \A f \in DOMAIN files : f.b < f.e /\ files[f] >= 1
           /\ \A r \in requests : r.run \in 1..nRun
+          /\ proc.st \in {"none", "open", "disabled"} /\ (proc.st = "open" <=> proc.f # NoProcFile)
 (* a week is posted at most once over a whole history, and what the server      *)
 (* acknowledged is recorded as uploaded and is no longer waiting                *)
 OneRequestPerWeek == \A r1, r2 \in requests : r1.wk = r2.wk => r1 = r2
@@ -124,5 +150,5 @@ RequestsRecorded == \A r \in requests : r.wk \in uploaded /\ r.wk \notin ready
 (* may also send (opt-in date < begin < end = week <= today), so a run that the *)
 (* server acknowledges never leaves a new ready report behind                   *)
 NoNewReadyLeftBehind == [][ready' \subseteq ready]_vars
-View == <<modeFile, intent, day, tod, files, local, ready, uploaded, requests, nRun, nSet, nEdit, nCollect, nAdv, init>>
+View == <<modeFile, intent, day, tod, files, local, ready, uploaded, requests, proc, nProc, nRun, nSet, nEdit, nCollect, nAdv, init>>
 =============================================================================
